@@ -21,3 +21,5 @@ Theorem gate_D06_refused_octets_bounded : True. Proof. pose proof D06_refused_oc
 Print Assumptions gate_D06_refused_octets_bounded.
 Theorem gate_D06_covered : True. Proof. pose proof D06_covered. exact I. Qed.
 Print Assumptions gate_D06_covered.
+Theorem gate_D04_history : True. Proof. pose proof D04_history. exact I. Qed.
+Print Assumptions gate_D04_history.
